@@ -49,7 +49,10 @@ RULE = (
     "with non-zero flux that is interior or Dirichlet-outflow has exactly one entry 1 in the column of the cell with "
     "cell_faces[f,c]*flux_f > 0; Neumann faces and Dirichlet-inflow faces have an empty row; rhs_dir is diagonal with 1 "
     "exactly on Dirichlet-inflow faces (zero-flux Dirichlet faces: 0 or 1), rhs_neu is diagonal with cell_faces[f,c] on "
-    "Neumann faces and nothing else; num_components = Kronecker product with the identity (exact equality). "
+    "Neumann faces and nothing else; num_components = Kronecker product with the identity (exact equality). Single "
+    "component: assemble_matrix_rhs is called 2-3 times after the one discretize (and again in every transport step) with a "
+    "face-wise bc_values array whose interior entries are arbitrary numbers; every assembly must equal div Q U and "
+    "div (rhs_neu + rhs_dir Q) bc_values composed from the incidence and the expected rows (1e-12 of the summed terms). "
     "Divergence-free cases in addition: 1-3 explicit steps c+ = c - dt/V (A c - b) with dt = theta * min V/outflow, "
     "theta in (0,1], arbitrary Dirichlet data / zero Neumann data: sum V c unchanged (1e-12 relative) and every "
     "component stays within its initial [min, max] (1e-12 relative plus the rigorous bound for the residual divergence "
@@ -83,7 +86,8 @@ ASSUMPTIONS = [
 REQUIRED = {"dim1": 0.02, "dim2": 0.2, "dim3": 0.2, "fracture-faces": 0.1, "flux-normal": 0.1, "flux-signs": 0.05,
             "flux-divfree-proj": 0.05, "flux-divfree-cycle": 0.05, "flux-divfree-two": 0.05, "flux-wide": 0.1,
             "flux-wide-range": 0.1, "flux-tiny-negative": 0.08, "flux-tiny-negative-interior": 0.05,
-            "flux-tiny-negative-dirichlet": 0.02, "flux-unit-factor": 0.1, "zeros-present": 0.2, "bc-both": 0.2,
+            "flux-tiny-negative-dirichlet": 0.02, "flux-unit-factor": 0.1, "assemble-repeated": 0.3,
+            "bc-values-on-interior-faces": 0.15, "zeros-present": 0.2, "bc-both": 0.2,
             "dir-inflow": 0.15, "dir-outflow": 0.15, "neu-inflow": 0.15, "neu-outflow": 0.15, "nc1": 0.1, "nc2": 0.1,
             "nc3": 0.1, "transport": 0.15, "transport-circulation": 0.07, "default-bc": 0.01, "frac-dir": 0.01,
             "boundary-zero-flux-dir": 0.05, "reuse": 0.2, "reuse-same-signs": 0.05, "reuse-signs-changed": 0.05,
@@ -475,6 +479,41 @@ def check(spec):
             lambda: f"face {int(np.argmax(dn != wn)) // nc}: rhs_neu diagonal {dn[int(np.argmax(dn != wn))]} expected "
                     f"{wn[int(np.argmax(dn != wn))]}")
 
+    # ---- assembled system (single component): an explicit time loop re-assembles every step after ONE discretize;
+    # every assembly must give div (Q U) and div (rhs_neu + rhs_dir Q) bc_values for the stored discretisation. The
+    # oracle is composed from the incidence and the expected rows (rows that are not constrained belong to zero-flux
+    # faces and drop out through Q). bc_values has one entry per face; only boundary entries are boundary data.
+    if nc == 1:
+        fi_, ci_, sg_ = inc[0], inc[1], inc[2]
+        D1 = sps.coo_matrix((sg_.astype(float), (ci_, fi_)), shape=(ncell, nf)).tocsr()
+        brng = np.random.default_rng(fs["seed"] ^ 0x5A5A5A)
+        bcv_all = brng.uniform(-5.0, 5.0, nf)  # interior entries: arbitrary numbers that must be ignored
+        if fs["seed"] % 3 == 0:
+            bcv_all[inc[3] == 2] = 0.0
+        elif inc[3].max() == 2:
+            labels.append("bc-values-on-interior-faces")
+        data[pp.PARAMETERS][KW]["bc_values"] = bcv_all.copy()
+        Ao = (D1 @ sps.diags(q) @ U1).toarray()
+        Aabs = (abs(D1) @ sps.diags(np.abs(q)) @ U1).toarray()
+        face_term = d_neu * bcv_all + np.nan_to_num(d_dir) * q * bcv_all
+        bo = D1 @ face_term
+        babs = abs(D1) @ np.abs(face_term)
+        n_asm = 2 + fs["seed"] % 2
+        for k in range(n_asm):
+            A_k, b_k = up.assemble_matrix_rhs(g, data)
+            A_k = sps.csr_matrix(A_k).toarray()
+            require(A_k.shape == Ao.shape and np.asarray(b_k).shape == bo.shape, "assemble-shape", f"{A_k.shape}")
+            badA = np.abs(A_k - Ao) > 1e-12 * Aabs
+            require(not badA.any(), "assemble-matrix" if k == 0 else "assemble-matrix-repeated",
+                    lambda: f"assembly number {k + 1} after one discretize: entry {tuple(int(v) for v in np.argwhere(badA)[0])} "
+                            f"is {A_k[tuple(np.argwhere(badA)[0])]!r}, expected {Ao[tuple(np.argwhere(badA)[0])]!r} "
+                            f"(= div Q U of the stored discretisation)")
+            badb = np.abs(np.asarray(b_k) - bo) > 1e-12 * babs
+            require(not badb.any(), "assemble-rhs" if k == 0 else "assemble-rhs-repeated",
+                    lambda: f"assembly number {k + 1}: rhs of cell {int(np.argmax(badb))} is {b_k[int(np.argmax(badb))]!r}, "
+                            f"expected {bo[int(np.argmax(badb))]!r}")
+        labels.append("assemble-repeated")
+
     # ---- classes
     nzb = (q != 0) & (inc[3] == 1)
     if np.any(q == 0):
@@ -535,6 +574,7 @@ def _transport(g, inc, q, spec, data, up, U, Rd, Rn, is_dir):
     c0 = c.copy()
     # boundary data: arbitrary on Dirichlet faces, zero (no-flow) on Neumann faces
     bcv = np.where(is_dir[:, None], rng.uniform(-5, 5, size=(nf, nc)), 0.0)
+    bcv[count == 2, :] = rng.uniform(-5, 5, size=(int((count == 2).sum()), nc))  # interior entries: not boundary data
     Dv = sps.kron(sps.coo_matrix((sg, (ci, fi)), shape=(ncell, nf)), sps.identity(nc)).tocsr()
     Q = sps.diags(np.repeat(q, nc))
     if nc == 1:
@@ -546,6 +586,8 @@ def _transport(g, inc, q, spec, data, up, U, Rd, Rn, is_dir):
     Vr = np.repeat(V, nc)
     x = c.ravel().copy()
     for _ in range(tr["steps"]):
+        if nc == 1:  # time loop that re-assembles every step from the one stored discretisation
+            A, b = up.assemble_matrix_rhs(g, data)
         x = x - dt / Vr * (A @ x - b)
     c1 = x.reshape(ncell, nc)
     cscale = float(np.abs(c0).max())
